@@ -995,17 +995,46 @@ fn misc_public_surface(cfg: &Cfg) -> Result<(), String> {
                 let h = datasketches::countmin::CountMinSketch::<u64>::suggest_num_hashes(c);
                 want!(h <= 127, "suggest_num_hashes({c}) = {h}");
             }
+            // upper end of the documented ranges that is cheap to build: 127 rows
+            let mut big = datasketches::countmin::CountMinSketch::<u16>::with_seed(127, 3 + (u % 5) as u32, u);
+            for i in 0..40u64 {
+                big.update_with_weight(i, 1 + (i % 3) as u16);
+            }
+            let img = big.serialize();
+            let back = datasketches::countmin::CountMinSketch::<u16>::deserialize_with_seed(&img, u).map_err(|e| format!("127-row Count-Min image rejected: {e}"))?;
+            want!(back.total_weight() == big.total_weight() && back.estimate(7u64) == big.estimate(7u64), "127-row Count-Min round trip");
         }
         "fi" => {
             for lg in [3u8, (3 + u % 20) as u8] {
                 let e = datasketches::frequencies::FrequentItemsSketch::<i64>::apriori_error(lg, (u >> 8) as i64 & i64::MAX);
                 want!(e >= 0.0, "apriori_error({lg}) = {e}");
             }
+            // the largest documented map size (2^31 slots maximum; the table starts at 8 and grows on demand)
+            let mut big = datasketches::frequencies::FrequentItemsSketch::<i64>::new(1usize << 31);
+            for i in 0..200i64 {
+                big.update_with_count(i % 50, 1 + (i as u64 % 4));
+            }
+            want!(big.maximum_map_capacity() == 3 * (1usize << 31) / 4 && big.num_active_items() == 50, "FrequentItemsSketch::new(2^31) bookkeeping");
+            let img = big.serialize();
+            let back = datasketches::frequencies::FrequentItemsSketch::<i64>::deserialize(&img).map_err(|e| format!("2^31-size Frequent Items image rejected: {e}"))?;
+            want!(back.total_weight() == big.total_weight() && back.estimate(&7) == big.estimate(&7), "FrequentItemsSketch::new(2^31) round trip");
         }
         "bloom" => {
             for fpp in [1e-300, 1e-9, unit.max(1e-12), 0.5, 1.0] {
                 let h = BloomFilterBuilder::suggest_num_hashes_from_fpp(fpp);
                 want!(h >= 1, "suggest_num_hashes_from_fpp({fpp}) = {h}");
+            }
+            // the largest documented number of hash functions on a small array
+            let mut f = BloomFilterBuilder::with_size(64 + u % 4000, BloomFilterBuilder::MAX_NUM_HASHES).seed(u).build();
+            f.insert(u);
+            want!(f.contains(&u) && f.bits_used() >= 1, "Bloom filter with MAX_NUM_HASHES");
+            let back = BloomFilter::deserialize(&f.serialize()).map_err(|e| format!("MAX_NUM_HASHES Bloom image rejected: {e}"))?;
+            want!(back.contains(&u) && back.bits_used() == f.bits_used(), "Bloom filter with MAX_NUM_HASHES round trip");
+            // sizing helpers at the ends of their ranges
+            for (n, p) in [(1u64, 1.0f64), (1, 1e-300), (u64::MAX, 0.5), (u64::MAX, 1e-300), (1 + u % 1_000_000, unit.max(1e-12))] {
+                let bits = BloomFilterBuilder::suggest_num_bits(n, p);
+                let h = BloomFilterBuilder::suggest_num_hashes_from_accuracy(n, bits);
+                want!((BloomFilterBuilder::MIN_NUM_BITS..=BloomFilterBuilder::MAX_NUM_BITS).contains(&bits) && h >= 1, "suggest_num_bits({n},{p}) = {bits}, suggest_num_hashes = {h}");
             }
         }
         "theta" => {
@@ -1025,6 +1054,15 @@ fn misc_public_surface(cfg: &Cfg) -> Result<(), String> {
             z.update_f64(f64::from_bits(0x7ff8_0000_0000_0001));
             want!(z.num_retained() == 2, "update_f64: 0.0 / -0.0 and the NaNs must each be one item (documented canonical form); retained {}", z.num_retained());
             let _ = (s.estimate(), s.theta(), s.is_empty(), s.lg_k());
+            // the largest documented nominal size: the table starts small and grows on demand
+            let mut big = ThetaSketch::builder().lg_k(26).resize_factor(ResizeFactor::X2).build();
+            for i in 0..3000u64 {
+                big.update(i ^ u);
+            }
+            want!(big.num_retained() == 3000 && big.estimate() == 3000.0, "theta lg_k 26: retained {} estimate {}", big.num_retained(), big.estimate());
+            let c = big.compact(true);
+            let back = CompactThetaSketch::deserialize(&c.serialize_compressed()).map_err(|e| format!("lg_k 26 theta image rejected: {e}"))?;
+            want!(back.num_retained() == 3000, "theta lg_k 26 round trip");
         }
         "cpc" | "cpc_union" => {
             let mut s = CpcSketch::default();
@@ -1035,6 +1073,21 @@ fn misc_public_surface(cfg: &Cfg) -> Result<(), String> {
             let _ = s.estimate();
             let d = CpcUnion::default();
             let _ = d.lg_k();
+            // the largest documented lg_k: stays sparse for a short stream
+            let mut big = CpcSketch::new(26);
+            for i in 0..2000u64 {
+                big.update(i ^ u);
+            }
+            want!(big.num_coupons() >= 1990 && big.validate(), "CPC lg_k 26: {} coupons", big.num_coupons());
+            let img = big.serialize();
+            want!(img.len() <= CpcSketch::max_serialized_bytes(26), "CPC lg_k 26 image {} bytes", img.len());
+            let back = CpcSketch::deserialize(&img).map_err(|e| format!("lg_k 26 CPC image rejected: {e}"))?;
+            want!(back.num_coupons() == big.num_coupons() && back.estimate().to_bits() == big.estimate().to_bits(), "CPC lg_k 26 round trip");
+            let w = CpcWrapper::new(&img).map_err(|e| format!("lg_k 26 CPC image rejected by CpcWrapper: {e}"))?;
+            want!(w.estimate().to_bits() == big.estimate().to_bits(), "CPC lg_k 26 wrapper");
+            let mut un = CpcUnion::new(26);
+            un.update(&big);
+            want!(un.to_sketch().num_coupons() == big.num_coupons(), "CPC lg_k 26 union");
         }
         "hll" | "hll_union" => {
             let un = HllUnion::new((4 + u % 18) as u8);
@@ -1056,6 +1109,22 @@ fn misc_public_surface(cfg: &Cfg) -> Result<(), String> {
             let fz = t.clone().freeze();
             want!(fz.k() == t.k() && fz.is_empty() == t.is_empty() && fz.min_value() == t.min_value() && fz.max_value() == t.max_value() && fz.total_weight() == t.total_weight(), "frozen digest accessors differ from the mutable digest's");
             let _ = (fz.pmf(&splits), fz.cdf(&splits), fz.rank(1.0), fz.quantile(0.5));
+            // k over the whole documented range (u16, at least 10)
+            for k in [10u16, 32767, 32768, 40000 + (u % 20000) as u16, u16::MAX] {
+                let mut x = TDigestMut::new(k);
+                for i in 0..(u % 500) {
+                    x.update(i as f64 - unit);
+                }
+                let n = x.total_weight();
+                let img = x.serialize();
+                let mut back = TDigestMut::deserialize(&img, false).map_err(|e| format!("k={k} t-digest image rejected: {e}"))?;
+                want!(back.k() == k && back.total_weight() == n, "t-digest k={k} round trip: k {} weight {}", back.k(), back.total_weight());
+                let mut other = TDigestMut::new(10);
+                other.update(unit);
+                back.merge(&other);
+                other.merge(&x);
+                want!(back.total_weight() == n + 1 && other.total_weight() == n + 1, "t-digest k={k} merge weights");
+            }
         }
     }
     Ok(())
